@@ -27,9 +27,10 @@ func init() {
 
 	register(&Property{
 		ID: "C01", Title: "Subscribed resources converge to the state announced by the service",
-		Explanation: "Decides structural necessary conditions of convergence, on every path and for every schedule: (1) in the cache, content, version and the event's update flag change together, and an initial load stores content, version 0 and the loaded state only under the not-loaded test of that same entry (PAIR/version-bump); every event is stamped with the pre-update version, applied by its handler, fanned out inside the unlock window and dropped only by the listed discards (CONF/handle-event); (2) cache content and version are written only by cache tasks under the entry's mutex and read under it (CTX/guarded-by); (3) the subscriber applies an event only when it targets its version and advances by one per update (DOM/version-filter); (4) events are processed only with the event gate known open, discarded before load, and reaccess dispatched first (DOM/event-gate); (5) queues are updated in order-preserving forms (FIFO); (6) all mutable subscription state is touched on the connection worker only (CTX/conn); (7) a resource made sendable again must carry a current snapshot (PAIR/snapshot-current: known finding F13); cached model and collection values are never written in place: every container write in the repository is traced to its origin and none originates from Collection.Values / Model.Values (DOM/copy-on-write); a fanned-out ResourceEvent is read-only, no field of it — also one added later — is stored by subscriber-side code (WHO/event-immutable). Not decided: end-to-end equality of the client copy with the service state, Value.Equal, the reset diff (C12), the collector (C02), JSON encodings, legacy-encoding selection. Added after seeding round 7: an entry handed out for subscribing has its messaging-system event subscription on every path (PAIR/cache-count) — without it no event arrives and nothing converges; the cached encodings Model.data/Collection.data are read only by MarshalJSON (WHO/state readers). Added after seeding round 8: a removed cache entry is cleared from every index, the base pointer included (DOM/unregister). Added after seeding round 9: events held back for a resource are let through only after the frame that delivers it (PAIR/rpc-resources). Added after seeding round 10: no test of a field contradicts a store of the same object that dominates it (CONTRA/stale-test). Added after seeding round 11: a run of adds derived from a re-fetch or query answer by one ascending loop moves its index along, so the run does not arrive reversed (TABLE/add-run). Added after seeding round 12: a release with the collect flag set reaches the collector on every path (DOM/gc-after-release); the pass of the reset model diff that marks missing keys deleted runs for every re-fetched model (DOM/diff-unconditional); a resource event is applied to the resource it names (DOM/event-target). Added after the mutation sweep: the encoding a client gets follows its negotiated protocol version in one way at every site — `version < 1.2.1` selects the legacy encoders, which are used nowhere else; the 1.2.0 marshalers convert exactly when a value is a soft reference or a data value (TABLE/legacy-select). This was the clause 'legacy-encoding selection' listed as not decided until round 12. Added after the mutation sweep: DOM/gc-unsend (see C02).",
+		Explanation: "Decides structural necessary conditions of convergence, on every path and for every schedule: (1) in the cache, content, version and the event's update flag change together, and an initial load stores content, version 0 and the loaded state only under the not-loaded test of that same entry (PAIR/version-bump); every event is stamped with the pre-update version, applied by its handler, fanned out inside the unlock window and dropped only by the listed discards (CONF/handle-event); (2) cache content and version are written only by cache tasks under the entry's mutex and read under it (CTX/guarded-by); (3) the subscriber applies an event only when it targets its version and advances by one per update (DOM/version-filter); (4) events are processed only with the event gate known open, discarded before load, and reaccess dispatched first (DOM/event-gate); (5) queues are updated in order-preserving forms (FIFO); (6) all mutable subscription state is touched on the connection worker only (CTX/conn); (7) a resource made sendable again must carry a current snapshot (PAIR/snapshot-current: known finding F13); cached model and collection values are never written in place: every container write in the repository is traced to its origin and none originates from Collection.Values / Model.Values (DOM/copy-on-write); a fanned-out ResourceEvent is read-only, no field of it — also one added later — is stored by subscriber-side code (WHO/event-immutable). Not decided: end-to-end equality of the client copy with the service state, Value.Equal, the reset diff (C12), the collector (C02), JSON encodings, legacy-encoding selection. Added after seeding round 7: an entry handed out for subscribing has its messaging-system event subscription on every path (PAIR/cache-count) — without it no event arrives and nothing converges; the cached encodings Model.data/Collection.data are read only by MarshalJSON (WHO/state readers). Added after seeding round 8: a removed cache entry is cleared from every index, the base pointer included (DOM/unregister). Added after seeding round 9: events held back for a resource are let through only after the frame that delivers it (PAIR/rpc-resources). Added after seeding round 10: no test of a field contradicts a store of the same object that dominates it (CONTRA/stale-test). Added after seeding round 11: a run of adds derived from a re-fetch or query answer by one ascending loop moves its index along, so the run does not arrive reversed (TABLE/add-run). Added after seeding round 12: a release with the collect flag set reaches the collector on every path (DOM/gc-after-release); the pass of the reset model diff that marks missing keys deleted runs for every re-fetched model (DOM/diff-unconditional); a resource event is applied to the resource it names (DOM/event-target). Added after the mutation sweep: the encoding a client gets follows its negotiated protocol version in one way at every site — `version < 1.2.1` selects the legacy encoders, which are used nowhere else; the 1.2.0 marshalers convert exactly when a value is a soft reference or a data value (TABLE/legacy-select). This was the clause 'legacy-encoding selection' listed as not decided until round 12. Added after the mutation sweep: DOM/gc-unsend (see C02). DOM/proper-values: see C15.",
 		Assumptions: append([]string{"at most one cache worker runs a resource queue at a time (FIFO/CHAN rules) and one output worker per connection (CTX/conn)"}, baseAssumptions...),
 		Rules: []Rule{
+			{Name: "DOM/proper-values", Min: 5, Run: ruleProperValues, Doc: "improper values never enter the cached state"},
 			{Name: "DOM/gc-unsend", Min: 2, Run: ruleGCUnsend, Doc: "the collector un-sends a kept node exactly when the root was sent and no sent reference to the node remains"},
 			{Name: "TABLE/legacy-select", Min: 8, Run: ruleLegacySelect, Doc: "clients below protocol 1.2.1 get the legacy encoding, 1.2.1 and later the current one — everywhere the version is consulted; 1.2.0 marshalers convert exactly for soft references and data values"},
 			{Name: "DOM/event-target", Min: 1, Run: ruleEventTarget, Doc: "a resource event is applied to the resource it names"},
@@ -216,9 +217,10 @@ func init() {
 
 	register(&Property{
 		ID: "C07", Title: "Exactly one response per client request",
-		Explanation: "Decides, for every path and schedule: rpc.HandleRequest performs exactly one Reply per dispatched request, directly or inside a handler continuation, and Reply is called from nowhere else (LIN/reply); every continuation parameter of the handlers and combinators is consumed exactly once on every full path — called, delegated to another linear function, or parked in a pending slot (LIN/continuations); pending callback slots are cleared only after draining, or when the connection itself goes away (LIN/drain: known finding F9 — Dispose drops ready callbacks on a live connection); an answered throttled request always frees its slot, so the access checks queued behind it — and the client requests waiting for them — are not stranded (PAIR/throttle-slot); continuations run on the connection worker (CTX/conn); every outcome of a get response collects the subscribers waiting on it (DOM/answer-waiting); slot bookkeeping is finished before continuations run (DOM/drain-reentrancy). Not decided: liveness (that a parked continuation is eventually run), the readyCallback.loading countdown arithmetic. Added after seeding round 7: a subscription gives its count on a ready callback back only after descending into its references, so the count cannot reach zero twice (PAIR/ready-count). Added after seeding round 9: marshalers put text into a frame only through json.Marshal: a frame that fails to encode answers nothing (PROV/json-text). Added after seeding round 10: OnReady runs its callback at once only for a ready subscription (DOM/onready-inline).  Added after the mutation sweep of round 11: the bookkeeping of a shared access request — flag raised and caller parked before the request, flag lowered and list emptied before the hand-over — holds on every path of both twins (PAIR/access-inflight). Added after seeding round 12: PAIR/gc-countdown serves this property too. Added after the mutation sweep: every path of Cache.Subscribe hands the subscriber over or answers it (PAIR/subscribe-answered). Added after the mutation sweep: every path from the worker's drain loop back to it stores the queue (PAIR/worker-queue-reset).",
+		Explanation: "Decides, for every path and schedule: rpc.HandleRequest performs exactly one Reply per dispatched request, directly or inside a handler continuation, and Reply is called from nowhere else (LIN/reply); every continuation parameter of the handlers and combinators is consumed exactly once on every full path — called, delegated to another linear function, or parked in a pending slot (LIN/continuations); pending callback slots are cleared only after draining, or when the connection itself goes away (LIN/drain: known finding F9 — Dispose drops ready callbacks on a live connection); an answered throttled request always frees its slot, so the access checks queued behind it — and the client requests waiting for them — are not stranded (PAIR/throttle-slot); continuations run on the connection worker (CTX/conn); every outcome of a get response collects the subscribers waiting on it (DOM/answer-waiting); slot bookkeeping is finished before continuations run (DOM/drain-reentrancy). Not decided: liveness (that a parked continuation is eventually run), the readyCallback.loading countdown arithmetic. Added after seeding round 7: a subscription gives its count on a ready callback back only after descending into its references, so the count cannot reach zero twice (PAIR/ready-count). Added after seeding round 9: marshalers put text into a frame only through json.Marshal: a frame that fails to encode answers nothing (PROV/json-text). Added after seeding round 10: OnReady runs its callback at once only for a ready subscription (DOM/onready-inline).  Added after the mutation sweep of round 11: the bookkeeping of a shared access request — flag raised and caller parked before the request, flag lowered and list emptied before the hand-over — holds on every path of both twins (PAIR/access-inflight). Added after seeding round 12: PAIR/gc-countdown serves this property too. Added after the mutation sweep: every path of Cache.Subscribe hands the subscriber over or answers it (PAIR/subscribe-answered). Added after the mutation sweep: every path from the worker's drain loop back to it stores the queue (PAIR/worker-queue-reset). Added after the mutation sweep: every Requester call of the dispatcher lies behind Request.ID != nil, and success/error replies follow the outcome handed to the continuation (DOM/rpc-dispatch).",
 		Assumptions: append([]string{"mq.Client.SendRequest completes exactly once (C18)", "a continuation refused by wsConn.Enqueue because the connection is disposing is an accepted drop"}, baseAssumptions...),
 		Rules: []Rule{
+			{Name: "DOM/rpc-dispatch", Min: 10, Run: ruleRPCDispatch, Doc: "no dispatch and no reply for a frame without an id; in every continuation the success reply lies behind success, the error reply behind failure"},
 			{Name: "PAIR/worker-queue-reset", Min: 1, Run: ruleWorkerQueueReset, Doc: "the connection worker empties the task queue after running it on every path: no request is processed and answered twice"},
 			{Name: "PAIR/subscribe-answered", Min: 1, Run: ruleSubscribeAnswered, Doc: "Cache.Subscribe hands the subscriber to the entry or answers it with the error, exactly once, on every path"},
 			{Name: "LOCK/balance", Min: 20, Run: ruleLockBalance, Doc: "no path leaves a mutex held: a later request on the resource or connection would block and never be answered"},
@@ -243,9 +245,10 @@ func init() {
 
 	register(&Property{
 		ID: "C08", Title: "Direct subscription accounting; failed requests leave nothing behind",
-		Explanation: "Decides: on every continuation path of every function that takes a direct subscription the count is released exactly once on every failure and on every outcome of get-type handlers, kept exactly on the success of subscribe-type handlers, and never released when Subscribe itself failed (PAIR/direct-count); an unsubscribe removes counts only behind the test direct >= count with the same count (DOM/unsub-precond); the count parameter is validated as positive (DOM/count-param); direct++ only below the limit (DOM/sub-limit); revocation and delete remove all direct subscriptions (DOM/revoke); direct is written by addCount/removeCount only; params that carry no count unsubscribe once: a decoded-params path reaches UnsubscribeResource with the default 1 (DOM/unsub-precond). Not decided: numeric equality of the counter with the response history (it is the sum of the per-path facts). Added after seeding round 7: a connection registers a Subscription object under a resource id only on the not-found edge of the lookup of that id (DOM/one-sub-per-rid); the collector's mark pass keeps every node that is held or reached from a kept node (DOM/gc-mark). Added after seeding round 9: a request answered with success before any failure keeps its direct subscription (PAIR/direct-count). Added after seeding round 11: the unsubscribe count is decoded as an integer and reaches the handler unconverted, so a fractional count cannot pass the 'no more than held' test by truncation (DOM/count-integer). Added after the mutation sweep: removeCount lowers counts only behind the any-holder test (DOM/remove-count-held); the direct count is lowered by the count asked for when that many are held — statically dead edges of the clamp do not count (DOM/unsub-precond). Added after the mutation sweep: the immediate send of an add/change event that references an already delivered resource is preceded by the count-up of that resource's indirectsent (PAIR/edge-sent-counted).",
+		Explanation: "Decides: on every continuation path of every function that takes a direct subscription the count is released exactly once on every failure and on every outcome of get-type handlers, kept exactly on the success of subscribe-type handlers, and never released when Subscribe itself failed (PAIR/direct-count); an unsubscribe removes counts only behind the test direct >= count with the same count (DOM/unsub-precond); the count parameter is validated as positive (DOM/count-param); direct++ only below the limit (DOM/sub-limit); revocation and delete remove all direct subscriptions (DOM/revoke); direct is written by addCount/removeCount only; params that carry no count unsubscribe once: a decoded-params path reaches UnsubscribeResource with the default 1 (DOM/unsub-precond). Not decided: numeric equality of the counter with the response history (it is the sum of the per-path facts). Added after seeding round 7: a connection registers a Subscription object under a resource id only on the not-found edge of the lookup of that id (DOM/one-sub-per-rid); the collector's mark pass keeps every node that is held or reached from a kept node (DOM/gc-mark). Added after seeding round 9: a request answered with success before any failure keeps its direct subscription (PAIR/direct-count). Added after seeding round 11: the unsubscribe count is decoded as an integer and reaches the handler unconverted, so a fractional count cannot pass the 'no more than held' test by truncation (DOM/count-integer). Added after the mutation sweep: removeCount lowers counts only behind the any-holder test (DOM/remove-count-held); the direct count is lowered by the count asked for when that many are held — statically dead edges of the clamp do not count (DOM/unsub-precond). Added after the mutation sweep: the immediate send of an add/change event that references an already delivered resource is preceded by the count-up of that resource's indirectsent (PAIR/edge-sent-counted). DOM/rpc-dispatch: see C07.",
 		Assumptions: append([]string{"LIN (C07): every handler replies exactly once", "a task refused by a disposing connection needs no release (dispose releases everything)"}, baseAssumptions...),
 		Rules: []Rule{
+			{Name: "DOM/rpc-dispatch", Min: 10, Run: ruleRPCDispatch, Doc: "an unsubscribe that succeeded is answered with success, one that was refused with the error"},
 			{Name: "PAIR/edge-sent-counted", Min: 2, Run: ruleEdgeSentCounted, Doc: "the quick exits of the add/change handlers count a new reference to an already sent resource in its indirectsent before the event goes out"},
 			{Name: "DOM/remove-count-held", Min: 3, Run: ruleRemoveCountHeld, Doc: "removeCount lowers a count only while the subscription has a holder (direct+indirect+indirectsent != 0)"},
 			{Name: "DOM/gc-after-release", Min: 1, Run: ruleGCAfterRelease, Doc: "a released reference reaches the collector on every path: nothing is left behind on a reference cycle"},
@@ -407,9 +410,12 @@ func init() {
 
 	register(&Property{
 		ID: "C15", Title: "Crash freedom and containment of malformed input",
-		Explanation: "Decides the panic classes that have a crisp rule: decoders return no data with an error, so log-and-continue callers cannot apply a partial message, and return the decoded object whenever they report success, so callers that dereference it cannot hit nil (DOM/all-or-nothing); decoded indexes reach slice operations only inside [0,len] with the exact bound for element access vs slicing, content is dereferenced only for the right kind (DOM/index-kind-guard); optional decoded pointers are dereferenced under their nil test or a predicate implying it, null elements of decoded pointer slices are rejected (DOM/opt-deref); explicit panics and unchecked type assertions are the listed ones (CENSUS/panic); no send on a channel that may have been closed (CHAN: known finding F5 for Cache.inCh); recursive cycles are the listed ones with checked guards (REC/census); the mutex acquisition graph is acyclic (LOCK/order); one Done per throttle slot, so the 'negative running counter' panic is unreachable (PAIR/throttle-slot); a failed or malformed re-fetch closes the reset window, so later valid messages are processed normally (DOM/reset-protocol). Not decided: index safety of lcs, ResourcePattern.Match, byte scans in UnmarshalJSON, encoder buffers; JSON library behaviour; memory exhaustion. Added after seeding round 8: a failed query request releases the event lock, so later messages are still processed (PAIR/query-lock). Added after seeding round 10: a value object naming two of rid, action and data is refused (TABLE/value-object); an answer carrying an error is an error (DOM/error-wins). Added after seeding round 11: every message is decoded as a whole — json.Unmarshal, or a streaming decode followed by a probe for trailing input (TABLE/whole-input); the kind of an answer is decided by the member that is present (TABLE/kind-by-presence).  Added after seeding round 12: an alias of a normalised query resource — base pointer or links entry — is recorded in the resource's alias list on the same path (PAIR/alias-recorded). Added after the mutation sweep (generic crash-freedom rules, each over every site of its kind in the repository): values of comma-ok lookups are dereferenced only where found (DOM/lookup-ok); elements at constant positions are read only under a length test (DOM/const-index); pointer members that are nil for part of their object's life are used only under their nil test (DOM/optional-field); results of fallible calls are looked into only after the error was found nil, and decoders report success only under err == nil of json.Unmarshal (ERR/checked-before-use); map members created on demand are written only where they exist (DOM/map-made); every function leaves each mutex as it found it (LOCK/balance) and touches the fields a mutex guards only with it held (LOCK/guarded-fields); the collector's graph walks terminate on cycles (REC/gc-terminates). Added after seeding round 13: an element read at the position of a loop counter lies behind some test of the counter, so a scan cannot run off the end of an input made of skipped bytes only (DOM/loop-index; decides that a test exists, not that it is the right one). DOM/loaded-either: see C11.",
+		Explanation: "Decides the panic classes that have a crisp rule: decoders return no data with an error, so log-and-continue callers cannot apply a partial message, and return the decoded object whenever they report success, so callers that dereference it cannot hit nil (DOM/all-or-nothing); decoded indexes reach slice operations only inside [0,len] with the exact bound for element access vs slicing, content is dereferenced only for the right kind (DOM/index-kind-guard); optional decoded pointers are dereferenced under their nil test or a predicate implying it, null elements of decoded pointer slices are rejected (DOM/opt-deref); explicit panics and unchecked type assertions are the listed ones (CENSUS/panic); no send on a channel that may have been closed (CHAN: known finding F5 for Cache.inCh); recursive cycles are the listed ones with checked guards (REC/census); the mutex acquisition graph is acyclic (LOCK/order); one Done per throttle slot, so the 'negative running counter' panic is unreachable (PAIR/throttle-slot); a failed or malformed re-fetch closes the reset window, so later valid messages are processed normally (DOM/reset-protocol). Not decided: index safety of lcs, ResourcePattern.Match, byte scans in UnmarshalJSON, encoder buffers; JSON library behaviour; memory exhaustion. Added after seeding round 8: a failed query request releases the event lock, so later messages are still processed (PAIR/query-lock). Added after seeding round 10: a value object naming two of rid, action and data is refused (TABLE/value-object); an answer carrying an error is an error (DOM/error-wins). Added after seeding round 11: every message is decoded as a whole — json.Unmarshal, or a streaming decode followed by a probe for trailing input (TABLE/whole-input); the kind of an answer is decided by the member that is present (TABLE/kind-by-presence).  Added after seeding round 12: an alias of a normalised query resource — base pointer or links entry — is recorded in the resource's alias list on the same path (PAIR/alias-recorded). Added after the mutation sweep (generic crash-freedom rules, each over every site of its kind in the repository): values of comma-ok lookups are dereferenced only where found (DOM/lookup-ok); elements at constant positions are read only under a length test (DOM/const-index); pointer members that are nil for part of their object's life are used only under their nil test (DOM/optional-field); results of fallible calls are looked into only after the error was found nil, and decoders report success only under err == nil of json.Unmarshal (ERR/checked-before-use); map members created on demand are written only where they exist (DOM/map-made); every function leaves each mutex as it found it (LOCK/balance) and touches the fields a mutex guards only with it held (LOCK/guarded-fields); the collector's graph walks terminate on cycles (REC/gc-terminates). Added after seeding round 13: an element read at the position of a loop counter lies behind some test of the counter, so a scan cannot run off the end of an input made of skipped bytes only (DOM/loop-index; decides that a test exists, not that it is the right one). DOM/loaded-either: see C11. Added after the mutation sweep: for every (decoder, content member) pair a live IsProper test on that member's values decides the outcome (DOM/proper-values). Added after the mutation sweep: for each pair of alternative content members an error return lies behind both being present; ValueTypeDelete is stored only behind the comparison with the action name (DOM/exclusive-members). Added after the mutation sweep: a lazily created map member is handed to a writing function only where it exists (DOM/map-arg-made).",
 		Assumptions: baseAssumptions,
 		Rules: []Rule{
+			{Name: "DOM/map-arg-made", Min: 1, Run: ruleMapArgMade, Doc: "a member map handed to a function that assigns into it is non-nil (or made) on that path"},
+			{Name: "DOM/exclusive-members", Min: 4, Run: ruleExclusiveMembers, Doc: "an answer with two alternative content members is refused; only the known action name makes a delete action"},
+			{Name: "DOM/proper-values", Min: 5, Run: ruleProperValues, Doc: "each decoder of service content tests every value of each content member with IsProper before it accepts the message"},
 			{Name: "DOM/loaded-either", Min: 2, Run: ruleLoadedEither, Doc: "no nil dereference of the resource of a failed load"},
 			{Name: "DOM/loop-index", Min: 0, Run: ruleLoopIndex, Doc: "an element read at the position of a counting loop variable lies behind a test of that variable"},
 			{Name: "DOM/optional-hook", Min: 3, Run: ruleOptionalHook, Doc: "a hook that may be unset is called only under its non-nil test"},
@@ -443,9 +449,10 @@ func init() {
 
 	register(&Property{
 		ID: "C16", Title: "HTTP resources are a faithful, finite rendering of the resource graph",
-		Explanation: "Decides: in both encoders the expansion path is pushed and popped on every successful path, the cycle test and the error-leaf return precede the push, the recursive descent is guarded by the cycle test and the push, so the expansion terminates on cyclic graphs and later siblings are not cut (PAIR/enc-path); the subscription is handed to the renderer before its resources are released, so the rendering is of the graph as cached at response time and not of one that queued events have already changed (PAIR/rpc-resources); HEAD and GET take the same path and HEAD is tested nowhere else; the two encoders agree on the value kinds (TWIN/encode-value); resource responses set Location from the unexpanded rid (PROV/cid-taint clause of C10); every successful path of both encoders, for collections and models of 0, 1 and 2 elements, emits exactly one well-formed JSON value skeleton, and every non-literal write is JSON by construction — json.Marshal, a json.RawMessage from the decoder, an encoded error (PAIR/emit). Not decided — the core: equality of the rendering with the recursive expansion for every graph; JSON well-formedness beyond the guarded structure; RIDToPath/PathToRID as inverse maps. Added after seeding round 7: cached model/collection values already handed to subscriptions are never written in place, so a pending GET renders a state the cache actually had (DOM/copy-on-write). Added after seeding round 8: no error rewrite distinguishes HEAD from GET (TABLE/method-rewrite). Added after seeding round 9: the path reader refuses dots, so the href writer leaves none (TABLE/href-dots). Added after seeding round 10: OnReady runs its callback at once only for a ready subscription, so a GET is rendered only when everything below the resource is loaded (DOM/onready-inline). Added after seeding round 12: the dot test of the path readers is applied behind the prefix cut (TABLE/dots-after-prefix). Added after seeding round 13: the method taken from the HTTP path is one valid subject token (DOM/method-token). Added after seeding round 13: the path handed to PathToRID / PathToRIDAction comes from the escaped request path, so parts are split before they are unescaped (DOM/raw-path).",
+		Explanation: "Decides: in both encoders the expansion path is pushed and popped on every successful path, the cycle test and the error-leaf return precede the push, the recursive descent is guarded by the cycle test and the push, so the expansion terminates on cyclic graphs and later siblings are not cut (PAIR/enc-path); the subscription is handed to the renderer before its resources are released, so the rendering is of the graph as cached at response time and not of one that queued events have already changed (PAIR/rpc-resources); HEAD and GET take the same path and HEAD is tested nowhere else; the two encoders agree on the value kinds (TWIN/encode-value); resource responses set Location from the unexpanded rid (PROV/cid-taint clause of C10); every successful path of both encoders, for collections and models of 0, 1 and 2 elements, emits exactly one well-formed JSON value skeleton, and every non-literal write is JSON by construction — json.Marshal, a json.RawMessage from the decoder, an encoded error (PAIR/emit). Not decided — the core: equality of the rendering with the recursive expansion for every graph; JSON well-formedness beyond the guarded structure; RIDToPath/PathToRID as inverse maps. Added after seeding round 7: cached model/collection values already handed to subscriptions are never written in place, so a pending GET renders a state the cache actually had (DOM/copy-on-write). Added after seeding round 8: no error rewrite distinguishes HEAD from GET (TABLE/method-rewrite). Added after seeding round 9: the path reader refuses dots, so the href writer leaves none (TABLE/href-dots). Added after seeding round 10: OnReady runs its callback at once only for a ready subscription, so a GET is rendered only when everything below the resource is loaded (DOM/onready-inline). Added after seeding round 12: the dot test of the path readers is applied behind the prefix cut (TABLE/dots-after-prefix). Added after seeding round 13: the method taken from the HTTP path is one valid subject token (DOM/method-token). Added after seeding round 13: the path handed to PathToRID / PathToRIDAction comes from the escaped request path, so parts are split before they are unescaped (DOM/raw-path). PAIR/respond-once: see C17.",
 		Assumptions: baseAssumptions,
 		Rules: []Rule{
+			{Name: "PAIR/respond-once", Min: 5, Run: ruleRespondOnce, Doc: "an HTTP exchange is answered at most once"},
 			{Name: "DOM/raw-path", Min: 3, Run: ruleRawPath, Doc: "the request path split into resource-id parts is the escaped one (URL.RawPath / EscapedPath)"},
 			{Name: "DOM/method-token", Min: 3, Run: ruleMethodToken, Doc: "the method name taken from an HTTP path is validated as one subject token before the call"},
 			{Name: "TABLE/dots-after-prefix", Min: 2, Run: ruleDotsAfterPrefix, Doc: "the dot test of the HTTP path readers looks at the part behind the api prefix, so every configured prefix works"},
@@ -464,9 +471,10 @@ func init() {
 
 	register(&Property{
 		ID: "C17", Title: "HTTP status mapping, service meta limits and CORS allow-list",
-		Explanation: "Decides completely the finite tables: errorStatus maps each code of the property's table (and five other codes) to the stated status, by constant propagation with the code fixed (TABLE/errorStatus); IsDirectResponseStatus and IsValidStatus are true exactly within 300..599, with the nil cases (TABLE/status-interval); MergeHeader never copies the five protected keys, each canonical, appends Set-Cookie and replaces other keys (TABLE/protected); every meta a decoder hands out was canonicalised (DOM/canonicalize); on a direct-response status no further service request is issued and no data is handed out (DOM/gates); the origin check precedes header auth and every service request (DOM/origin); the error-to-status table is closed: every code errorStatus tells apart, and any other, maps to the listed status or 400 (TABLE/errorStatus). Not decided: matchesOrigins for all strings, net/http and gorilla behaviour. Added after seeding round 7: an error is replaced by methodNotAllowed only on paths that excluded GET, HEAD and POST, so methodNotFound keeps its 404 there (TABLE/method-rewrite). Added after seeding round 8: merging two service metas takes the later status on every path (DOM/meta-merge). Added after seeding round 9: the header-auth answer's meta is kept whenever the request goes on, so its cookies accumulate with the later ones (DOM/auth-meta-kept). Added after seeding round 10: the upgrader's origin test is set only where the service's upgrader is built (DOM/origin). Added after seeding round 11: the origin \"null\" is recognised on the header value as received (DOM/null-origin-raw).",
+		Explanation: "Decides completely the finite tables: errorStatus maps each code of the property's table (and five other codes) to the stated status, by constant propagation with the code fixed (TABLE/errorStatus); IsDirectResponseStatus and IsValidStatus are true exactly within 300..599, with the nil cases (TABLE/status-interval); MergeHeader never copies the five protected keys, each canonical, appends Set-Cookie and replaces other keys (TABLE/protected); every meta a decoder hands out was canonicalised (DOM/canonicalize); on a direct-response status no further service request is issued and no data is handed out (DOM/gates); the origin check precedes header auth and every service request (DOM/origin); the error-to-status table is closed: every code errorStatus tells apart, and any other, maps to the listed status or 400 (TABLE/errorStatus). Not decided: matchesOrigins for all strings, net/http and gorilla behaviour. Added after seeding round 7: an error is replaced by methodNotAllowed only on paths that excluded GET, HEAD and POST, so methodNotFound keeps its 404 there (TABLE/method-rewrite). Added after seeding round 8: merging two service metas takes the later status on every path (DOM/meta-merge). Added after seeding round 9: the header-auth answer's meta is kept whenever the request goes on, so its cookies accumulate with the later ones (DOM/auth-meta-kept). Added after seeding round 10: the upgrader's origin test is set only where the service's upgrader is built (DOM/origin). Added after seeding round 11: the origin \"null\" is recognised on the header value as received (DOM/null-origin-raw). Added after the mutation sweep: no path of a handler or response continuation answers twice (PAIR/respond-once).",
 		Assumptions: baseAssumptions,
 		Rules: []Rule{
+			{Name: "PAIR/respond-once", Min: 5, Run: ruleRespondOnce, Doc: "every path of every function holding the ResponseWriter produces at most one response (helper, upgrade, or own status/body)"},
 			{Name: "DOM/null-origin-raw", Min: 2, Run: ruleNullOriginRaw, Doc: "the null origin that bypasses the allow-list is recognised on the header value as received, not after case folding"},
 			{Name: "DOM/auth-meta-kept", Min: 1, Run: ruleAuthMetaKept, Doc: "the header-auth answer's meta (headers, cookies) is kept whenever the request goes on"},
 			{Name: "DOM/meta-merge", Min: 1, Run: ruleMetaMerge, Doc: "merging two service metas hands the later status over on every path"},
